@@ -129,7 +129,31 @@ def canaries(rng, prefix, cache_base="cache", with_magefiles_dir=False, small=Fa
     return f
 
 
-def gen_project(rng, layout="flat", with_import=True, mutation=None):
+MODULE_STATES = ["tidy", "replace-without-require", "extra-unused-require", "go-older", "go-too-new", "go-work",
+                 "vendor-consistent", "vendor-inconsistent"]
+GOFLAGS_VARIANTS = ["-mod=mod", "", "-mod=readonly", "-mod=vendor"]
+
+
+def module_files(state):
+    """go.mod (and what goes with it) of a project whose magefile imports github.com/magefile/mage/mg"""
+    req = "require github.com/magefile/mage v0.0.0\n\n"
+    rep = "replace github.com/magefile/mage => %s\n" % REPO
+    gov = {"go-older": "1.12", "go-too-new": "1.99"}.get(state, "1.21")
+    f = {}
+    if state == "replace-without-require":
+        f["go.mod"] = "module %s\n\ngo %s\n\n%s" % (MOD, gov, rep)
+    elif state == "extra-unused-require":
+        f["go.mod"] = "module %s\n\ngo %s\n\nrequire (\n\texample.test/extra v0.0.0\n\tgithub.com/magefile/mage v0.0.0\n)\n\n%sreplace example.test/extra => ./extra\n" % (MOD, gov, rep)
+        f["extra/go.mod"] = "module example.test/extra\n\ngo 1.21\n"
+        f["extra/extra.go"] = "package extra\n\n// X is not used by anybody.\nfunc X() {}\n"
+    else:
+        f["go.mod"] = "module %s\n\ngo %s\n\n%s%s" % (MOD, gov, req, rep)
+    if state == "go-work":
+        f["go.work"] = "go 1.21\n\nuse .\n"
+    return f
+
+
+def gen_project(rng, layout="flat", with_import=True, mutation=None, module=None):
     """{relative path: bytes or ('link', target)} of one project"""
     n1, n2 = rng.sample(["mf_build.go", "magefile.go", "targets.go", "a_mage.go", "zz_tasks.go", "Build.go"], 2)
     f = {}
@@ -161,6 +185,13 @@ def gen_project(rng, layout="flat", with_import=True, mutation=None):
         f["top_mage.go"] = "//go:build mage\n\npackage main\n\nimport \"fmt\"\n\n// Top is a magefile next to the magefiles directory.\nfunc Top() { fmt.Println(\"CALL Top\") }\n"
     f[pre + "helper.go"] = HELPER
     f["go.mod"] = GO_MOD
+    if module:
+        # the magefile really uses the mage module, so the module files matter
+        for k in list(f):
+            if isinstance(f[k], str) and "func Build() error {" in f[k]:
+                f[k] = f[k].replace('"os"\n', '"os"\n\n\t"github.com/magefile/mage/mg"\n', 1).replace(
+                    'fmt.Println("CALL Build")', 'fmt.Println("CALL Build")\n\t_ = mg.Verbose()', 1)
+        f.update(module_files(module))
     f["imp/tools/tools.go"] = TOOLS
     f["data.bin"] = bytes(rng.randrange(256) for _ in range(rng.choice([0, 1, 17, 300])))
     f["notes.txt"] = "notes %d\n" % rng.randrange(10**6)
@@ -236,7 +267,7 @@ def fs_term(s):
 def scenario(id, **kw):
     sc = {"id": id, "layout": "flat", "with_import": True, "mutation": None, "args": ["build"], "fail": None, "plan": "",
           "keep": False, "hashfast": False, "prewarm": False, "force": False, "compile": False, "debug": False,
-          "leftover": None, "leftover_where": "top", "crash": None, "enospc": None, "envfault": None, "out": None, "wflag": None, "must_succeed": False, "ref": None, "special": False}
+          "leftover": None, "leftover_where": "top", "crash": None, "enospc": None, "envfault": None, "out": None, "wflag": None, "must_succeed": False, "module": None, "goflags": None, "ref": None, "special": False}
     sc.update(kw)
     return sc
 
@@ -328,6 +359,19 @@ def build_scenarios(rng, gen, quick):
                 continue
             A(scenario("keep-cl-%s-%s" % (cname, route), keep=True, args=cargs, fail=cfail, **kw))
         A(scenario("cl-%s" % cname, args=cargs, fail=cfail))
+    # M: the project's MODULE STATE x the go tool's module flags: go.mod, go.sum, go.work, vendor/ are files of the directory like
+    # any other - byte for byte the same afterwards, whether the run builds or fails (under -mod=mod the go tool itself may
+    # update go.mod/go.sum: that is what GOFLAGS asks it to do, recorded, not judged)
+    for st in MODULE_STATES:
+        for gf in GOFLAGS_VARIANTS:
+            if quick and st in ("extra-unused-require", "go-older") and gf in ("-mod=readonly", "-mod=vendor"):
+                continue
+            A(scenario("module-%s/GOFLAGS=%s" % (st, gf or "unset"), module=st, goflags=gf, with_import=False))
+    for st in ("replace-without-require", "vendor-inconsistent", "tidy"):
+        A(scenario("keep-module-%s/GOFLAGS=unset" % st, module=st, goflags="", with_import=False, keep=True))
+        if not quick:
+            A(scenario("hash-module-%s/GOFLAGS=unset" % st, module=st, goflags="", with_import=False, hashfast=True))
+            A(scenario("import-module-%s/GOFLAGS=-mod=readonly" % st, module=st, goflags="-mod=readonly", with_import=False, args=["-l"]))
     # E: hash mode, -f, -compile
     A(scenario("hash-first", hashfast=True))
     A(scenario("hash-cached", hashfast=True, prewarm=True))
@@ -527,6 +571,8 @@ def run_env(sc, tools, log, plan=None):
         e["MAGEFILE_HASHFAST"] = "1"
     if sc["fail"]:
         e["VERIF_FAIL"] = sc["fail"]
+    if sc.get("goflags") is not None:
+        e["GOFLAGS"] = sc["goflags"]                 # the go tool's module mode as the user's environment sets it
     # the fake go tool looks whether the generated file exists while each go command runs
     d = os.path.join(os.path.dirname(log), "proj")
     e["VERIF_FAKEGO_WATCH"] = os.path.join(d, "magefiles", MAIN) if sc["layout"] in ("mfdir", "named") else os.path.join(d, MAIN)
@@ -554,6 +600,32 @@ def read_log(log):
 
 def cache_has_files(c):
     return os.path.isdir(c) and any(os.path.isfile(os.path.join(c, n)) for n in os.listdir(c))
+
+
+def prepare_module(mage, tools, sc, d, workdir):
+    """vendor/ directories are made by the real `go mod vendor`; then what the go tool ITSELF does with this module under these
+    GOFLAGS is measured on a copy (go env GOCACHE, go build of the magefiles + a stub main): the model is told which step fails"""
+    if sc["module"].startswith("vendor"):
+        r = subprocess.run([tools["realgo"], "mod", "vendor"], cwd=d, env=mage.env({"GOFLAGS": "-mod=mod"}), stdout=subprocess.PIPE, stderr=subprocess.PIPE, timeout=120)
+        mt = os.path.join(d, "vendor", "modules.txt")
+        if r.returncode != 0 or not os.path.exists(mt):
+            raise BuildError("go mod vendor failed: " + r.stderr.decode("utf-8", "replace")[-300:])
+        if sc["module"] == "vendor-inconsistent":
+            s = open(mt).read().replace("## explicit", "## explicit; go 1.3", 1).replace("v0.0.0", "v0.0.1", 1)
+            open(mt, "w").write(s)
+    ref = os.path.join(workdir, "modref")
+    shutil.copytree(d, ref, symlinks=True)
+    with open(os.path.join(ref, "zz_stub_main.go"), "w") as fh:
+        fh.write("//go:build mage\n\npackage main\n\nfunc main() {}\n")
+    env = mage.env({"GOFLAGS": sc["goflags"]} if sc.get("goflags") is not None else None)
+    gofiles = sorted(n for n in os.listdir(ref) if n.endswith(".go") and n != "helper.go")
+    res = {}
+    for name, cmd in (("env", ["env", "GOCACHE"]), ("build", ["build", "-o", os.path.join(workdir, "modref.bin")] + gofiles)):
+        p = subprocess.run([tools["realgo"]] + cmd, cwd=ref, env=env, stdout=subprocess.PIPE, stderr=subprocess.PIPE, timeout=180)
+        res[name] = p.returncode
+        res[name + "_err"] = p.stderr.decode("utf-8", "replace")[-200:]
+    sc["_modref"] = res
+    shutil.rmtree(ref, ignore_errors=True)
 
 
 def run_scenario(mage, tools, sc, files, workdir):
@@ -588,6 +660,8 @@ def run_scenario(mage, tools, sc, files, workdir):
                 os.makedirs(p)
                 with open(os.path.join(p, "inner.txt"), "w") as fh:
                     fh.write("x\n")
+    if sc.get("module"):
+        prepare_module(mage, tools, sc, d, workdir)
     place_leftover(d, sc)
     place_output(d, workdir, sc)
     outdir = os.path.join(workdir, "outdir")
@@ -787,6 +861,11 @@ def expected_faults(sc, reflog, tcode):
             f.append("ExecBinary")
     if sc["enospc"] is not None:
         f.append("WriteMain")
+    if sc.get("_modref"):
+        if sc["_modref"]["env"] != 0:
+            f.append("GoEnvGocache")
+        elif sc["_modref"]["build"] != 0:
+            f.append("GoBuild")
     if sc.get("envfault") in ENVFAULT_STEP:
         f.append(ENVFAULT_STEP[sc["envfault"]])
     if tcode:
@@ -827,6 +906,15 @@ def flags_term(sc):
 
 
 def invoke_case(sc, ob, faults, imports, tcode, gen_tok, partial_tok, lists, crash=None):
+    if sc.get("module") and (sc.get("goflags") is None or "-mod=mod" in sc["goflags"]):
+        # under -mod=mod the go tool may update go.mod / go.sum (asked for by GOFLAGS, recorded in the evidence): not mage's, not the model's
+        a2 = dict(ob["after"])
+        for k in ("go.mod", "go.sum"):
+            if k in ob["before"]:
+                a2[k] = ob["before"][k]
+            else:
+                a2.pop(k, None)
+        ob = dict(ob, after=a2)
     if sc["layout"] == "named":      # the directory Invoke is given is the sub-directory
         ob = dict(ob, before=ob["before"]["magefiles"][1], after=ob["after"]["magefiles"][1])
     if crash is None:
@@ -877,6 +965,13 @@ def oracle_run(sc, ob, gen_hashes, ref_ob, binref=None):
         for p in main_paths(sc):
             expect.pop(p, None)                       # a leftover generated file may (must) disappear
     after = dict(ob["after_h"])
+    if sc.get("module") and (sc.get("goflags") is None or "-mod=mod" in sc["goflags"]):
+        # GOFLAGS=-mod=mod: "update go.mod/go.sum as needed" is what the user asked the go tool for - not mage's doing
+        for k in ("go.mod", "go.sum"):
+            if expect.get(k) != after.get(k):
+                ob.setdefault("modfiles_rewritten_under_mod_mod", []).append(k)
+            expect.pop(k, None)
+            after.pop(k, None)
     if sc.get("out"):
         # -compile <out>: on success exactly the output is (re)written; on any failure nothing that existed changes
         tree, real = out_real(sc)
@@ -1178,7 +1273,7 @@ def run(ctx):
     def files_for(sc):
         import random
         return gen_project(random.Random("%d/%s/%s/%s" % (proj_seed, sc["layout"], sc["with_import"], sc["mutation"])),
-                           sc["layout"], sc["with_import"], sc["mutation"])
+                           sc["layout"], sc["with_import"], sc["mutation"], sc.get("module"))
 
     refsc = scenario("reference", keep=True)
     wd = os.path.join(work, "reference")
@@ -1229,7 +1324,8 @@ def run(ctx):
     def bin_ref(sc):
         """(exit status, stdout) of the compiled magefile itself for this command line, or None where it does not get to run"""
         if (sc["mutation"] or sc["plan"] or sc["compile"] or sc.get("envfault") or sc["enospc"] is not None or sc["crash"] or sc["special"]
-                or any(a.startswith("-") for a in sc["args"])):
+                or any(a.startswith("-") for a in sc["args"])
+                or (sc.get("_modref") and (sc["_modref"]["env"] != 0 or sc["_modref"]["build"] != 0))):
             return None
         rc = tcode_of(sc)
         lay = "mfdir" if sc["layout"] == "named" else sc["layout"]
@@ -1502,6 +1598,9 @@ def run(ctx):
                    "after; distinct by scenario; non-trivial = something fails, something is left lying around, a flag changes the life cycle, or the process is killed")
     watched = [(e, s_) for o in obs.values() if o.get("seen") and o.get("log") and len(o["seen"]) == len(o["log"]) for e, s_ in zip(o["log"], o["seen"])]
     cov["go_commands_watched"] = {"total": len(watched), "ran_while_generated_file_existed": {k: sum(1 for e, s_ in watched if e == k and s_) for k in sorted(set(e for e, _ in watched))}}
+    cov["module_state_x_goflags"] = {s["id"]: {"exit": obs[s["id"]].get("rc"), "go_tool_alone": {k: v for k, v in (s.get("_modref") or {}).items() if not k.endswith("_err")},
+                                               "go_tool_rewrote_under_mod_mod": obs[s["id"]].get("modfiles_rewritten_under_mod_mod", [])}
+                                     for s in scs if s.get("module")}
     cov["scenarios"] = len(scs)
     cov["distribution"] = dist
     cov["model_mismatches"] = len(bad_items)
